@@ -1,1 +1,51 @@
-/- C11 — property theorems (stub: not built yet) -/
+import Rivaas.Model.Compiler
+import Rivaas.Spec.CompiledClass
+/-
+C11 — Route compilation is a transparent optimisation.
+(first stage: bloom filter has no false negatives; the engine theorems follow)
+-/
+namespace Rivaas.C11
+open Rivaas.Route Rivaas.Radix Rivaas.Compiler
+
+theorem lemma_add_keeps (b : Bloom) (h p : Nat) (hp : p ∈ b.bits) : p ∈ (b.add h).bits := by
+  simp [Bloom.add, hp]
+
+/-- adding keys one after the other (`Add` in a loop) -/
+def addAll (b : Bloom) : List Nat → Bloom
+  | [] => b
+  | h :: hs => addAll (b.add h) hs
+
+theorem lemma_addAll_keeps (b : Bloom) (hs : List Nat) (p : Nat) (hp : p ∈ b.bits) : p ∈ (addAll b hs).bits := by
+  induction hs generalizing b with
+  | nil => exact hp
+  | cons x xs ih => exact ih _ (lemma_add_keeps b x p hp)
+
+theorem lemma_addAll_params (b : Bloom) (hs : List Nat) :
+    (addAll b hs).size = b.size ∧ (addAll b hs).seeds = b.seeds := by
+  induction hs generalizing b with
+  | nil => exact ⟨rfl, rfl⟩
+  | cons x xs ih => exact ⟨(ih (b.add x)).1, (ih (b.add x)).2⟩
+
+/-- No false negatives: a key that was added tests positive — for every filter size (1..4096 and
+beyond, 0 included), every number of hash functions, every set of keys and every hash value. -/
+theorem bloom_no_false_negative (b : Bloom) (hs : List Nat) (h : Nat) (hh : h ∈ hs) :
+    (addAll b hs).test h = true := by
+  induction hs generalizing b with
+  | nil => simp at hh
+  | cons y ys ih =>
+    simp only [List.mem_cons] at hh
+    rcases hh with rfl | hh
+    · obtain ⟨hsz, hsd⟩ := lemma_addAll_params (b.add h) ys
+      simp only [Bloom.test, List.all_eq_true, List.contains_eq_mem, decide_eq_true_eq, addAll, hsd]
+      intro s hs'
+      apply lemma_addAll_keeps
+      have : (addAll (b.add h) ys).pos h s = b.pos h s := by
+        simp only [Bloom.pos, hsz]; rfl
+      rw [this]
+      simp only [Bloom.add, List.mem_append, List.mem_map]
+      left; exact ⟨s, by simpa [Bloom.add] using hs', rfl⟩
+    · exact ih (b.add y) hh
+
+example : (addAll (Bloom.new 1 8) [12345, 99]).test 99 = true := by decide
+
+end Rivaas.C11
